@@ -16,6 +16,13 @@ run_demo() {
       echo "--- [$1] $e $(basename $s)" >> $log
       timeout 120 target/debug/examples/$e $s >> $log 2>&1; echo "exit=$?" >> $log
     done
+    # demonstrations that compare several documents take them all as arguments
+    echo "--- [$1] $e (all documents)" >> $log
+    timeout 120 target/debug/examples/$e $d/demo/*.svg >> $log 2>&1; echo "exit=$?" >> $log
+    if [ -f $d/demo/run.sh ]; then
+      echo "--- [$1] run.sh" >> $log
+      (cd $d/demo && EXAMPLE=$wt/target/debug/examples/$e timeout 300 sh ./run.sh $wt) >> $log 2>&1; echo "exit=$?" >> $log
+    fi
   done
 }
 echo "=== without the change" >> $log
